@@ -22,6 +22,8 @@ Record tocinfo := mkToc { hasPart : bool; hasChapter : bool; hcount : nat; pcoun
                           pnum : nat; cnum : nat; snum : nat; ssnum : nat }.
 Record umdef := mkUm { um_line : nat; um_name : str; um_ignore : bool; um_argsc : nat; um_opts : list (str * bool); (* true = ArgOption *)
                        um_blocks : list block; um_list : bool; um_file : str }.
+(* X ftag: -gsub pairs, -shell command (the -regexp form is not modelled: regexp would be one more oracle) *)
+Inductive ufilter := FGsub (pairs : list (str * str)) | FShell (cmd : list str).
 Record bfinfo := mkBf { bf_tag : str; bf_ignore : bool; bf_inuser : bool; bf_line : nat }.
 (* a diagnostic, projected: line (None = end of file / no block), calling user macro if any, macro register, kind *)
 Record diag := mkDiag { d_file : str; d_line : option nat; d_user : option str; d_macro : str; d_kind : str }.
@@ -45,15 +47,15 @@ Record st := mkSt {
   (* control *)
   ifdepth : nat; udef : option umdef; umacros : list (str * umdef); ivars : list (str * str);
   cdepth : nat; cloc : option (nat * str * str);    (* line, name and file of the outermost user-macro invocation *)
-  xcount : nat; xexh : bool;                           (* expansions since that invocation; budget reported as exhausted *)
-  cfile : str; incstack : list str;                   (* current file; files being processed, innermost last *)
+  cfile : str;                                        (* current file *)
   has_cur : bool;                                     (* ctx.loc has a current block (false at end of file) *)
   elided : bool;                                      (* last macro was elided because of a format restriction *)
   format : str;
   (* exporter-private state *)
   fontstack : list str; xverse : bool; incell : bool; nesting : Z;
   (* the world: which files exist (os.Stat); frundis sources by path; FRUNDISLIB directories; -x *)
-  existing : list str; fs : list (str * str); libdirs : list str; unrestricted : bool;
+  filters : list (str * ufilter);                      (* user filters declared by X ftag *)
+  existing : list str;
   urls : list (str * option str);                     (* oracle: url.Parse(u).String() for the urls of the document; None = parse error *)
   (* output mode and files: 0 fragment to one file, 1 standalone single file, 2 multi-file directory *)
   mode : nat; files : list (str * str); curfile : str; navtext : str;
@@ -64,7 +66,7 @@ Record st := mkSt {
   <macro; args; prev; line; text; process; quiet; inl; asis; par; verse; ws; buf; wout; raw; bf; sblock; sinline; sif;
    toc; lox_toc; lox_nav; lox_lof; lox_lot; lox_lop; ids; images;
    tcell; tcount; ttit; tcols; tid; ttitle; tscope; ttitscope; tinfo; fig; vused; vcount; cid; cidx;
-   params; dtags; mtags; ifdepth; udef; umacros; ivars; cdepth; cloc; xcount; xexh; cfile; incstack; has_cur; elided; format; fontstack; xverse; incell; nesting; existing; fs; libdirs; unrestricted; urls; mode; files; curfile; navtext; diags; panicked>.
+   params; dtags; mtags; ifdepth; udef; umacros; ivars; cdepth; cloc; cfile; has_cur; elided; format; fontstack; xverse; incell; nesting; filters; existing; urls; mode; files; curfile; navtext; diags; panicked>.
 #[export] Instance eta_toc : Settable _ := settable! mkToc <hasPart; hasChapter; hcount; pcount; ccount; scount; sscount; pnum; cnum; snum; ssnum>.
 
 (* ctx.Error: respects quiet; location from the outermost user-macro call if any, else the current block *)
